@@ -1,3 +1,4 @@
+import Sparrow.Proofs.KangRecvRefine
 import Sparrow.Proofs.KangRefine
 import Sparrow.Proofs.KangFFEquiv
 import Sparrow.Proofs.KangRecvEquiv
@@ -398,3 +399,68 @@ theorem exchangeCell_order_of_walls (g : KangGeom) (f k j t : Nat) (others other
   Sparrow.exchangeCell_order_of_walls g f k j t others others' hj ht hnd hnd' hmem hmem' hwall hbins
 
 end Sparrow.Props.C19.Refine
+
+namespace Sparrow.Props.C19.RecvRefine
+open Sparrow Sparrow.Generated.KangFn
+
+/-- **receiver refinement** for arbitrary order histograms `H k j t` -/
+theorem receiverCell_refines_receiverOf (P K S : Nat) (center normal : Nat → Nat → ℝ) (H : Nat → Nat → Nat → ℝ)
+    (recv : Nat → ℝ) (c fs : ℝ) (att : Nat → ℝ) (f t : Nat) (ht : t < S)
+    (hbins : ∀ j, j < P → binKang (Vec3.norm (Vec3.sub (Vec3.ofFn (center j)) (Vec3.ofFn recv))) c fs ≤ S) :
+    receiverCell recv c fs S K (recvPatches P center normal H) att f t =
+      some (kangReceiverOf P K H
+        (fun j => binKang (Vec3.norm (Vec3.sub (Vec3.ofFn (center j)) (Vec3.ofFn recv))) c fs)
+        (fun j => kangRecvFactor (Vec3.ofFn (normal j)) (Vec3.ofFn (center j)) (Vec3.ofFn recv) (att f)) t) :=
+  Sparrow.receiverCell_refines_receiverOf P K S center normal H recv c fs att f t ht hbins
+
+/-- **the whole chain for one band**: histograms produced by the model recursion of the scene read off the geometry (which the
+    regenerated exchange loop nest refines, `exchangeCell_refines_order`), collected by the regenerated receiver loops, give the
+    model's `kangReceiver` of that scene -/
+theorem receiverCell_refines_kangReceiver (g : KangGeom) (normal : Nat → Nat → ℝ) (K : Nat) (recv : Nat → ℝ) (att : Nat → ℝ)
+    (f t : Nat) (ht : t < g.S)
+    (hbins : ∀ j, j < g.P → binKang (Vec3.norm (Vec3.sub (Vec3.ofFn (g.center j)) (Vec3.ofFn recv))) g.c g.fs ≤ g.S) :
+    receiverCell recv g.c g.fs g.S K
+        (recvPatches g.P g.center normal (fun k j t => orderH (g.scene f).toEx k j 0 t)) att f t =
+      some (kangReceiver (g.scene f).toEx K
+        (fun j => binKang (Vec3.norm (Vec3.sub (Vec3.ofFn (g.center j)) (Vec3.ofFn recv))) g.c g.fs)
+        (fun j => kangRecvFactor (Vec3.ofFn (normal j)) (Vec3.ofFn (g.center j)) (Vec3.ofFn recv) (att f)) t) :=
+  Sparrow.receiverCell_refines_kangReceiver g normal K recv att f t ht hbins
+
+end Sparrow.Props.C19.RecvRefine
+
+/-! ### The hypotheses of the theorems above are satisfiable (non-vacuity) -/
+namespace Sparrow.Props.C19.NonVacuous
+open Sparrow Sparrow.Generated.KangFn Sparrow.Generated.KangFF
+
+/-- a wall normal `(0, 0, 1)` is axis aligned for the threshold `0.99` of `init_energy_exchange` -/
+example : AxisAligned (Vec3.ofFn (fun q => if q = 2 then (1 : ℝ) else 0)) (99 / 100) := by
+  unfold AxisAligned Vec3.ofFn
+  right; right
+  norm_num
+
+/-- floor and a side wall: axis aligned along different axes, orthogonal (premises of `kangFormFactorPair_orth`) -/
+example : normalAxis (Vec3.ofFn (fun q => if q = 2 then (1 : ℝ) else 0)) (1 / 100000) ≠
+    normalAxis (Vec3.ofFn (fun q => if q = 0 then (1 : ℝ) else 0)) (1 / 100000) := by
+  simp [normalAxis, Vec3.ofFn, Cmp.lt]
+  norm_num
+
+/-- a delay within the histogram (premise of `addDelay_eq`, `exchangeContribution_eq`): the helper returns a histogram -/
+example : ∃ g, addDelay (fun t => (t : ℝ) + 1) 5 2 = some g ∧ g 0 = 0 ∧ g 1 = 0 ∧ g 2 = 1 ∧ g 4 = 3 := by
+  obtain ⟨g, hg, h⟩ := Sparrow.addDelay_eq (fun t => (t : ℝ) + 1) 5 2 (by omega)
+  refine ⟨g, hg, ?_, ?_, ?_, ?_⟩
+  · rw [h 0 (by omega)]; simp
+  · rw [h 1 (by omega)]; simp
+  · rw [h 2 (by omega)]; simp
+  · rw [h 4 (by omega)]; norm_num
+
+/-- two other walls with 3 and 2 patches: the reader finds column 3 + 1 for patch 1 of the second of them -/
+example : readerColumn [4, 7] [3, 2] 7 1 = some (writerColumn [3, 2] 1 1) ∧ writerColumn [3, 2] 1 1 = 4 := by
+  constructor
+  · exact Sparrow.readerColumn_eq_writerColumn [4, 7] [3, 2] 1 1 rfl (by decide) (by decide)
+  · decide
+
+/-- the schedule of a two-wall room with two orders -/
+example : runSchedule 2 2 = [.init 0, .init 1, .formFactor 0, .formFactor 1, .exchange 0 1, .exchange 1 1, .exchange 0 2, .exchange 1 2] := by
+  decide
+
+end Sparrow.Props.C19.NonVacuous
